@@ -8,6 +8,7 @@ pub mod chanlib;
 pub mod fx;
 pub mod jout;
 pub mod nodelib;
+pub mod sched;
 
 pub use fx::*;
 pub use jout::*;
